@@ -229,7 +229,7 @@ func (g *gBuilder) sprinkle() {
 	// configuration slot
 	for i := range g.sc.nodes {
 		if g.r.P(1, 5) {
-			g.sc.nodes[i].cfg = []int{1, 1, 3, 4, 2}[g.r.Intn(5)]
+			g.sc.nodes[i].cfg = []int{1, 1, 3, 4, 2, 5, 6, 7}[g.r.Intn(8)]
 		}
 	}
 	// a holder whose fields were filled by hand before the start
@@ -573,6 +573,32 @@ func genLadder(r *hx.Rng, depth int) *gScen {
 	g.sc.nodes[hub].slots["A1"] = "wb-peer"
 	g.sc.nodes[peer].slots["A0"] = "wa-hub"
 	g.sc.nodes[peer].slots["A1"] = "w" + layer(0, 1)
+	return g.sc
+}
+
+// configuration sections bound by prefix that nobody configured: optional ones (fine) and required ones (the start fails),
+// on one holder and spread over holders whose names sort in both orders
+func genAbsentPrefix(r *hx.Rng) *gScen {
+	g := newBuilder(r)
+	plain := func(u utInfo) bool { return !u.pp && !u.lazy }
+	a := g.addNode(g.randType(plain), true)
+	b := g.addNode(g.randType(plain), true)
+	g.sc.nodes[a].cust, g.sc.nodes[b].cust = "a-first", "b-second"
+	switch r.Intn(5) {
+	case 0:
+		g.sc.nodes[a].cfg, g.sc.nodes[b].cfg = 5, 6 // the optional one is processed first
+	case 1:
+		g.sc.nodes[a].cfg, g.sc.nodes[b].cfg = 6, 5
+	case 2:
+		g.sc.nodes[a].cfg = 7
+	case 3:
+		g.sc.nodes[a].cfg, g.sc.nodes[b].cfg = 5, 5
+	default:
+		g.sc.nodes[a].cfg, g.sc.nodes[b].cfg = 5, 7
+	}
+	if r.P(1, 2) {
+		g.randomSlots(a, 1+r.Intn(2))
+	}
 	return g.sc
 }
 
@@ -1040,6 +1066,9 @@ func graphCorpus(w *hx.Writer) {
 		emitGraph(genSelf(r.Fork()), []string{"corpus", "self"}, w)
 		emitGraph(genArrayCycle(r.Fork()), []string{"corpus", "arraycycle"}, w)
 		emitGraph(genAllOptional(r.Fork()), []string{"corpus", "alloptional"}, w)
+		if i < 10 {
+			emitGraph(genAbsentPrefix(r.Fork()), []string{"corpus", "absentprefix"}, w)
+		}
 		emitGraph(genOddProcessors(r.Fork()), []string{"corpus", "oddpp"}, w)
 		emitGraph(genProgQualified(r.Fork()), []string{"corpus", "progq"}, w)
 		if i < 12 {
